@@ -440,7 +440,7 @@ impl MemoryMap {
             MappingMode::Mutable => libc::PROT_READ | libc::PROT_WRITE,
         };
         let ptr = unsafe { libc::mmap(ptr::null_mut(), len, prot, libc::MAP_SHARED, file.as_raw_fd(), 0) };
-        if ptr.is_null() {
+        if ptr == libc::MAP_FAILED {
             return Err(Error::new(ErrorKind::Other, "Memory mapping failed"));
         }
 
